@@ -274,8 +274,10 @@ mod specs {
 mod specs {
     use mmtk::vm::*;
     pub const LOG_BIT: VMGlobalLogBitSpec = VMGlobalLogBitSpec::side_first();
-    pub const FWD_PTR: VMLocalForwardingPointerSpec = VMLocalForwardingPointerSpec::side_first();
-    pub const FWD_BITS: VMLocalForwardingBitsSpec = VMLocalForwardingBitsSpec::side_after(FWD_PTR.as_spec());
+    // the forwarding pointer has to live in the header (a side table of one word per word of
+    // heap cannot be reserved); everything else is on side
+    pub const FWD_PTR: VMLocalForwardingPointerSpec = VMLocalForwardingPointerSpec::in_header(0);
+    pub const FWD_BITS: VMLocalForwardingBitsSpec = VMLocalForwardingBitsSpec::side_first();
     pub const MARK: VMLocalMarkBitSpec = VMLocalMarkBitSpec::side_after(FWD_BITS.as_spec());
     pub const LOS: VMLocalLOSMarkNurserySpec = VMLocalLOSMarkNurserySpec::side_after(MARK.as_spec());
     #[cfg(feature = "pinning")]
